@@ -93,53 +93,158 @@ theorem dataPrefix_wf (c : Cfg) (hp : WFseg c.pfx = true) : c.dataPrefix = joinS
   have e : ['/'] ++ '/' :: (c.pfx ++ '/' :: dataSeg) = '/' :: joinSlash [c.pfx, dataSeg] := by simp [joinSlash]
   rw [e, pathClean_slash_joinSlash _ (by intro s hs; simp at hs; rcases hs with rfl | rfl; exact hp; exact wf_dataSeg) (by simp)]
 
+theorem splitSlash_ne_nil (s : Str) : splitSlash s ≠ [] := by
+  cases s with
+  | nil => simp [splitSlash]
+  | cons ch r =>
+    unfold splitSlash
+    split
+    · simp
+    · split <;> simp
+
+theorem splitSlash_append_gen : ∀ (a b : Str), splitSlash (a ++ '/' :: b) = splitSlash a ++ splitSlash b := by
+  intro a
+  induction a with
+  | nil => intro b; simp [splitSlash]
+  | cons ch a' ih =>
+    intro b
+    by_cases hc : ch = '/'
+    · subst hc; simp [splitSlash, ih]
+    · simp only [List.cons_append, splitSlash, hc, ↓reduceIte, ih]
+      cases h : splitSlash a' with
+      | nil => exact absurd h (splitSlash_ne_nil a')
+      | cons x xs => simp
+
+theorem joinSlash_splitSlash : ∀ (s : Str), joinSlash (splitSlash s) = '/' :: s := by
+  intro s
+  induction s with
+  | nil => rfl
+  | cons ch r ih =>
+    by_cases hc : ch = '/'
+    · subst hc; simp [splitSlash, joinSlash, ih]
+    · simp only [splitSlash, hc, ↓reduceIte]
+      cases h : splitSlash r with
+      | nil => exact absurd h (splitSlash_ne_nil r)
+      | cons x xs =>
+        rw [h] at ih
+        simp only [joinSlash] at ih ⊢
+        have ih' : x ++ joinSlash xs = r := (List.cons.inj ih).2
+        simp only [List.cons_append, ih']
+
+theorem splitSlash_inj {a b : Str} (h : splitSlash a = splitSlash b) : a = b := by
+  have := congrArg joinSlash h
+  rw [joinSlash_splitSlash, joinSlash_splitSlash] at this
+  exact (List.cons.inj this).2
+
 /-- The value of an index as path segments. -/
-def Index.segs (i : Index) (o : Obj) : List Str := if i.unique then [i.sel.get o] else [i.sel.get o, o.id]
+def Index.segs (i : Index) (o : Obj) : List Str :=
+  if i.unique then splitSlash (i.sel.get o) else splitSlash (i.sel.get o) ++ splitSlash o.id
+
+theorem ne_nil_of_wfsegs {v : Str} (h : ∀ s ∈ splitSlash v, WFseg s = true) : v ≠ [] := by
+  intro hv
+  subst hv
+  have := h [] (by simp [splitSlash])
+  simp [WFseg] at this
 
 theorem ikey_wf (c : Cfg) (hp : WFseg c.pfx = true) (i : Index) (hn : WFseg i.name = true) (o : Obj)
-    (hv : WFseg (i.sel.get o) = true) (hid : WFseg o.id = true) :
+    (hsegs : ∀ s ∈ i.segs o, WFseg s = true) :
     ikey c i o = joinSlash ([c.pfx, indexesSeg, i.name] ++ i.segs o) := by
   have hne : i.name ≠ [] := (WFseg_iff.mp hn).1
-  have hvne : i.sel.get o ≠ [] := (WFseg_iff.mp hv).1
+  have hval : i.valueOf o ≠ [] := by
+    unfold Index.valueOf
+    split
+    · rename_i hu
+      apply ne_nil_of_wfsegs
+      intro s hs; apply hsegs; unfold Index.segs; rw [if_pos hu]; exact hs
+    · simp
+  have hsplit : splitSlash (i.valueOf o) = i.segs o := by
+    unfold Index.valueOf Index.segs
+    split
+    · rfl
+    · exact splitSlash_append_gen _ _
   unfold ikey indexKey pathJoin
   rw [indexesPrefix_wf c hp]
-  have hval : i.valueOf o ≠ [] := by
-    unfold Index.valueOf; split <;> simp [hvne]
   have : List.filter (fun e => decide (e ≠ [])) [joinSlash [c.pfx, indexesSeg], i.name, i.valueOf o]
       = [joinSlash [c.pfx, indexesSeg], i.name, i.valueOf o] := by
     simp [List.filter, hne, hval, joinSlash]
   rw [this]
   simp only [intercalateSlash]
-  unfold Index.valueOf Index.segs
+  have e : joinSlash [c.pfx, indexesSeg] ++ '/' :: (i.name ++ '/' :: i.valueOf o)
+      = joinSlash ([c.pfx, indexesSeg, i.name] ++ i.segs o) := by
+    have : ('/' :: i.valueOf o) = joinSlash (i.segs o) := by rw [← hsplit, joinSlash_splitSlash]
+    have hj : ∀ (A B : List Str), joinSlash (A ++ B) = joinSlash A ++ joinSlash B := by
+      intro A B; induction A with
+      | nil => rfl
+      | cons a r ih => simp [joinSlash, ih]
+    rw [hj, ← this]
+    simp [joinSlash]
+  rw [e]
+  exact pathClean_joinSlash _ (by
+    intro s hs
+    rcases List.mem_append.mp hs with h | h
+    · simp at h
+      rcases h with rfl | rfl | rfl
+      · exact hp
+      · exact wf_indexesSeg
+      · exact hn
+    · exact hsegs s h) (by simp)
+
+theorem wfObj_iff {c : Cfg} {o : Obj} : c.wfObj o = true ↔
+    (∀ s ∈ splitSlash o.id, WFseg s = true) ∧ ∀ i ∈ c.indexes, (i.sel = .id ∨ WFseg (i.sel.get o) = true) := by
+  simp [Cfg.wfObj, WFpath]
+
+theorem value_segs_wf {c : Cfg} {o : Obj} (ho : c.wfObj o = true) {i : Index} (hi : i ∈ c.indexes) :
+    ∀ s ∈ splitSlash (i.sel.get o), WFseg s = true := by
+  obtain ⟨hid, hv⟩ := wfObj_iff.mp ho
+  rcases hv i hi with h | h
+  · rw [h]; exact hid
+  · rw [splitSlash_noslash _ (WFseg_iff.mp h).2.1]
+    intro s hs; simp at hs; subst hs; exact h
+
+theorem segs_wf {c : Cfg} {o : Obj} (ho : c.wfObj o = true) {i : Index} (hi : i ∈ c.indexes) :
+    ∀ s ∈ i.segs o, WFseg s = true := by
+  intro s hs
+  unfold Index.segs at hs
+  split at hs
+  · exact value_segs_wf ho hi s hs
+  · rcases List.mem_append.mp hs with h | h
+    · exact value_segs_wf ho hi s h
+    · exact (wfObj_iff.mp ho).1 s h
+
+theorem segs_inj {c : Cfg} {a b : Obj} (ha : c.wfObj a = true) (hb : c.wfObj b = true) {i : Index}
+    (hi : i ∈ c.indexes) (h : i.segs a = i.segs b) :
+    i.sel.get a = i.sel.get b ∧ (i.unique = false → a.id = b.id) := by
+  unfold Index.segs at h
   cases hu : i.unique with
   | true =>
-    simp only [↓reduceIte]
-    have e : joinSlash [c.pfx, indexesSeg] ++ '/' :: (i.name ++ '/' :: i.sel.get o)
-        = joinSlash ([c.pfx, indexesSeg, i.name] ++ [i.sel.get o]) := by simp [joinSlash]
-    rw [e]
-    exact pathClean_joinSlash _ (by
-      intro s hs; simp at hs
-      rcases hs with rfl | rfl | rfl | rfl
-      · exact hp
-      · exact wf_indexesSeg
-      · exact hn
-      · exact hv) (by simp)
+    rw [hu] at h
+    simp only [↓reduceIte] at h
+    exact ⟨splitSlash_inj h, by simp⟩
   | false =>
-    simp only [Bool.false_eq_true, ↓reduceIte]
-    have e : joinSlash [c.pfx, indexesSeg] ++ '/' :: (i.name ++ '/' :: (i.sel.get o ++ '/' :: o.id))
-        = joinSlash ([c.pfx, indexesSeg, i.name] ++ [i.sel.get o, o.id]) := by simp [joinSlash]
-    rw [e]
-    exact pathClean_joinSlash _ (by
-      intro s hs; simp at hs
-      rcases hs with rfl | rfl | rfl | rfl | rfl
-      · exact hp
-      · exact wf_indexesSeg
-      · exact hn
-      · exact hv
-      · exact hid) (by simp)
-
-theorem wfObj_iff {c : Cfg} {o : Obj} : c.wfObj o = true ↔ WFseg o.id = true ∧ ∀ i ∈ c.indexes, WFseg (i.sel.get o) = true := by
-  simp [Cfg.wfObj]
+    rw [hu] at h
+    simp only [Bool.false_eq_true, ↓reduceIte] at h
+    rcases (wfObj_iff.mp ha).2 i hi with hsel | hwa
+    · -- the index is on the id itself: A ++ A = B ++ B
+      have ea : i.sel.get a = a.id := by rw [hsel]; rfl
+      have eb : i.sel.get b = b.id := by rw [hsel]; rfl
+      rw [ea, eb] at h ⊢
+      have hlen : (splitSlash a.id).length = (splitSlash b.id).length := by
+        have := congrArg List.length h
+        simp at this; omega
+      have := (List.append_inj h hlen).1
+      exact ⟨splitSlash_inj this, fun _ => splitSlash_inj this⟩
+    · rcases (wfObj_iff.mp hb).2 i hi with hsel | hwb
+      · have ea : i.sel.get a = a.id := by rw [hsel]; rfl
+        have eb : i.sel.get b = b.id := by rw [hsel]; rfl
+        rw [ea, eb] at h ⊢
+        have hlen : (splitSlash a.id).length = (splitSlash b.id).length := by
+          have := congrArg List.length h
+          simp at this; omega
+        have := (List.append_inj h hlen).1
+        exact ⟨splitSlash_inj this, fun _ => splitSlash_inj this⟩
+      · rw [splitSlash_noslash _ (WFseg_iff.mp hwa).2.1, splitSlash_noslash _ (WFseg_iff.mp hwb).2.1] at h
+        simp only [List.cons_append, List.nil_append, List.cons.injEq] at h
+        exact ⟨h.1, fun _ => splitSlash_inj h.2⟩
 
 theorem wf_iff {c : Cfg} : c.wf = true ↔
     WFseg c.pfx = true ∧ (∀ i ∈ c.indexes, WFseg i.name = true) ∧ (c.indexes.map (·.name)).Nodup := by
@@ -170,52 +275,33 @@ theorem keysOK_of_wf (c : Cfg) (hc : c.wf = true) : KeysOK c (fun o => c.wfObj o
   have segsNoSlash : ∀ i ∈ c.indexes, ∀ o, c.wfObj o = true →
       ∀ x ∈ [c.pfx, indexesSeg, i.name] ++ i.segs o, NoSlash x := by
     intro i hi o ho x hx
-    obtain ⟨hid, hv⟩ := wfObj_iff.mp ho
     have : WFseg x = true := by
-      unfold Index.segs at hx
-      split at hx <;> simp at hx
-      · rcases hx with rfl | rfl | rfl | rfl
+      rcases List.mem_append.mp hx with h | h
+      · simp at h
+        rcases h with rfl | rfl | rfl
         · exact hp
         · exact wf_indexesSeg
         · exact hnames i hi
-        · exact hv i hi
-      · rcases hx with rfl | rfl | rfl | rfl | rfl
-        · exact hp
-        · exact wf_indexesSeg
-        · exact hnames i hi
-        · exact hv i hi
-        · exact hid
+      · exact segs_wf ho hi x h
     exact (WFseg_iff.mp this).2.1
   refine ⟨nodup_of_map_name hnd, ?_, ?_, ?_⟩
   · intro a b h
     unfold dataKey at h
     exact List.append_cancel_left h
   · intro id i o hi ho h
-    obtain ⟨hid, hv⟩ := wfObj_iff.mp ho
-    rw [ikey_wf c hp i (hnames i hi) o (hv i hi) hid] at h
+    rw [ikey_wf c hp i (hnames i hi) o (segs_wf ho hi)] at h
     unfold dataKey at h
     rw [dataPrefix_wf c hp] at h
     simp only [joinSlash, List.cons_append, List.append_assoc, List.nil_append, List.cons.injEq, true_and] at h
     have := List.append_cancel_left h
     simp [dataSeg, indexesSeg] at this
   · intro i j a b hi hj ha hb h
-    obtain ⟨haid, hav⟩ := wfObj_iff.mp ha
-    obtain ⟨hbid, hbv⟩ := wfObj_iff.mp hb
-    rw [ikey_wf c hp i (hnames i hi) a (hav i hi) haid, ikey_wf c hp j (hnames j hj) b (hbv j hj) hbid] at h
+    rw [ikey_wf c hp i (hnames i hi) a (segs_wf ha hi), ikey_wf c hp j (hnames j hj) b (segs_wf hb hj)] at h
     have hL := joinSlash_inj (segsNoSlash i hi a ha) (segsNoSlash j hj b hb) h
     simp only [List.cons_append, List.nil_append, List.cons.injEq, true_and] at hL
     have hij : i = j := eq_of_name_eq hnd hi hj hL.1
     subst hij
-    refine ⟨rfl, ?_, ?_⟩
-    · have := hL.2
-      unfold Index.segs at this
-      split at this <;> simp at this
-      · exact this
-      · exact this.1
-    · intro hu
-      have := hL.2
-      unfold Index.segs at this
-      simp [hu] at this
-      exact this.2
+    obtain ⟨h1, h2⟩ := segs_inj ha hb hi hL.2
+    exact ⟨rfl, h1, h2⟩
 
 end Kap.C15
